@@ -3052,7 +3052,10 @@ def decode_ssh_public_key(data: bytes) -> SSHKey:
             packet.check_end()
 
             key = handler.make_public(key_params)
-            key.algorithm = alg
+
+            if key.algorithm != alg:
+                raise KeyImportError('Public key algorithm mismatch')
+
             return key
         else:
             raise KeyImportError('Unknown key algorithm: ' +
